@@ -13,7 +13,7 @@ H04b (soundness with the real constructors): `A accepts B and o in B  =>  o in A
 from __future__ import annotations
 
 import itertools
-from typing import List
+from typing import List, Protocol, TypeVar
 
 from pyanalyze.value import (
     NO_RETURN_VALUE,
@@ -21,11 +21,15 @@ from pyanalyze.value import (
     AnySource,
     AnyValue,
     CanAssignError,
+    GenericValue,
     KnownValue,
     MultiValuedValue,
+    TypedValue,
     Value,
     unite_values,
 )
+
+TP = TypeVar("TP", covariant=True)
 
 from vf import member as M
 from vf.common import Atom, Rel, TopAtom, get_checker, install_coarse_hash, ref_accepts
@@ -37,15 +41,16 @@ FUNCTIONS_ENCODED = [
     "pyanalyze.value.Value.can_assign", "pyanalyze.value.MultiValuedValue.can_assign", "pyanalyze.value.AnyValue.can_assign",
     "pyanalyze.value.AnnotatedValue.can_assign / can_be_assigned", "pyanalyze.value.unite_values / flatten_values",
     "pyanalyze.checker.Checker.set_exclude_any / should_exclude_any / record_any_used",
+    "H04c: pyanalyze.type_object.TypeObject.can_assign (protocol branch, _protocol_positive_cache) / _is_compatible_with_protocol",
     "H04b: KnownValue / TypedValue / GenericValue / SequenceValue / TypedDictValue / SubclassValue / NewTypeValue .can_assign, "
     "pyanalyze.type_object.TypeObject.can_assign, pyanalyze.annotated_types.*.can_assign / is_compatible_metadata",
 ]
 BOUNDS = {
-    "quick": {"H04a": "3 atoms under every preorder (6 symbolic booleans) + a top atom; shapes atom / union of two atoms / Never / Any / Annotated[atom] / top; all pairs, a fifth of the triples",
+    "quick": {"H04c": "one generic protocol (one method returning T), specializations int / bool / str / float / object x 3 implementing classes; histories of two queries from an empty cache (first structural, second symbolic)", "H04a": "3 atoms under every preorder (6 symbolic booleans) + a top atom; shapes atom / union of two atoms / Never / Any / Annotated[atom] / top; all pairs, a fifth of the triples",
               "H04b": "ordered pairs over the depth-1 vocabulary of vf/member.py (rotating third), payloads unbounded ints / thresholds unbounded / TypedDict flags symbolic"},
-    "thorough": {"H04a": "all pairs and triples", "H04b": "all ordered pairs of the depth-1 vocabulary and a sample of depth 2"},
+    "thorough": {"H04c": "histories of three queries", "H04a": "all pairs and triples", "H04b": "all ordered pairs of the depth-1 vocabulary and a sample of depth 2"},
 }
-OUTSIDE = ["protocols (structural check needs attribute lookup and typeshed)", "callables (C07)", "generic bases of user classes", "TypeVars (C15)",
+OUTSIDE = ["protocols other than the one generic single-method family of H04c (structural check needs attribute lookup and typeshed)", "callables (C07)", "generic bases of user classes", "TypeVars (C15)",
            "documented leniencies: bare generic = G[Any], fixed tuple accepting a variadic tuple, mocks"]
 STUBS = ["stub atoms with a symbolic preorder (assumes only reflexivity and transitivity between leaf types)", "coarse-hash stub (H04b)"]
 ASSUMPTIONS = ["membership model vf/member.py (80 lines) written from the property statement"]
@@ -139,6 +144,14 @@ def h04_laws(b0: bool, b1: bool, b2: bool, b3: bool, b4: bool, b5: bool) -> bool
 
 def prepare(template, data):
     get_checker()
+    if template == "h04_proto":
+        saved = G.case
+        G.case = data
+        try:
+            for j in range(len(P_ARGS) * len(P_IMPLS)):
+                h04_proto(j, 0)
+        finally:
+            G.case = saved
     if template == "h04_sound":
         install_coarse_hash()
         M.warm(data)
@@ -171,9 +184,89 @@ def h04_sound(p0: int, p1: int, q0: int, q1: int, f0: bool, f1: bool, f2: bool, 
     return fin(M.member(o, ta))
 
 
+# ------------------------------------------------------------------------------ H04c
+# A generic protocol: one TypeObject (and its cache of earlier positive verdicts) serves every specialization, so the
+# verdict of a pair must not depend on which pairs were decided before it.  The first query is the structural case,
+# the later ones are chosen by symbolic selectors; every verdict is compared with the member-type reference.
+
+
+class Getter(Protocol[TP]):
+    def get(self) -> TP:
+        raise NotImplementedError
+
+
+class GetInt:
+    def get(self) -> int:
+        return 0
+
+
+class GetBool:
+    def get(self) -> bool:
+        return True
+
+
+class GetStr:
+    def get(self) -> str:
+        return ""
+
+
+P_ARGS = [int, bool, str, float, object]
+P_IMPLS = [(GetInt, int), (GetBool, bool), (GetStr, str)]
+
+
+def _proto_ref(a: type, b: type) -> bool:
+    if a is object or a is b:
+        return True
+    if a is int:
+        return b is bool
+    if a is float:
+        return b in (int, bool)
+    return False
+
+
+def _sel(lst, i):
+    for n, x in enumerate(lst):
+        if i == n:
+            return x
+    raise AssertionError(i)
+
+
+def _proto_query(q: int, ctx) -> bool:
+    """one query; True when the verdict agrees with the reference"""
+    # explicit forks: indexing a list of classes with a symbolic int gives CrossHair's SymbolicType proxy, which
+    # is not identical to the class it stands for
+    a = _sel(P_ARGS, q // len(P_IMPLS))
+    impl, b = _sel(P_IMPLS, q % len(P_IMPLS))
+    got = _ok(GenericValue(Getter, [TypedValue(a)]).can_assign(TypedValue(impl), ctx))
+    return got == _proto_ref(a, b)
+
+
+def h04_proto(j: int, k: int) -> bool:
+    """
+    post: _
+    """
+    data = G.case
+    n = len(P_ARGS) * len(P_IMPLS)
+    if not (0 <= j < n and 0 <= k < n):
+        return skip()
+    ctx = get_checker()
+    # the state every history starts from: nothing decided yet
+    ctx.make_type_object(Getter)._protocol_positive_cache.clear()
+    qs = [data["first"], j] + ([k] if data["depth"] >= 3 else [])
+    for q in qs:
+        if not _proto_query(q, ctx):
+            return fin(False)
+    return fin(True)
+
+
 def cases(tier: str, seed: int) -> List[Case]:
     out: List[Case] = []
     quick = tier == "quick"
+    for first in range(len(P_ARGS) * len(P_IMPLS)):
+        a = P_ARGS[first // len(P_IMPLS)].__name__
+        b = P_IMPLS[first % len(P_IMPLS)][1].__name__
+        out.append(Case("h04_proto", f"proto:Getter[{a}]<-Get{b}:then{1 if quick else 2}", {"first": first, "depth": 2 if quick else 3},
+                        timeout=90 if quick else 600, twin=True))
     for sa, sb in itertools.product(SHAPES_A, repeat=2):
         out.append(Case("h04_laws", f"laws:{sa},{sb}", {"shapes": [sa, sb]}, timeout=60, twin=(sa <= sb)))
     for idx, (sa, sb, sc) in enumerate(itertools.product(SHAPES_A, repeat=3)):
